@@ -280,6 +280,31 @@ def leanchecker(modules):
 # Correspondence
 # ---------------------------------------------------------------------------
 
+_DRV_DIR = None
+
+
+def snapshot_drivers(drivers):
+    """Call while holding Lock(), after lake_build: copies the freshly built driver executables to a
+    per-process directory, so a concurrent check relinking the same driver cannot disturb this run."""
+    global _DRV_DIR
+    import atexit
+    import shutil
+    d = os.path.join(WORK, "drv-%d" % os.getpid())
+    os.makedirs(d, exist_ok=True)
+    for drv in drivers:
+        src = os.path.join(LEAN, ".lake", "build", "bin", drv)
+        if os.path.exists(src):
+            shutil.copy2(src, os.path.join(d, drv))
+    _DRV_DIR = d
+    atexit.register(lambda: shutil.rmtree(d, ignore_errors=True))
+
+
+def driver_path(driver):
+    if _DRV_DIR and os.path.exists(os.path.join(_DRV_DIR, driver)):
+        return os.path.join(_DRV_DIR, driver)
+    return os.path.join(LEAN, ".lake", "build", "bin", driver)
+
+
 def run_workload(name, seed, n, wide=False, replay=None, extra_args=(), timeout=3000, tag="",
                  hbin="verifrun", driver="ldriver"):
     """verifrun <name> → cases file → ldriver → verdicts. Returns a stats dict."""
@@ -294,7 +319,7 @@ def run_workload(name, seed, n, wide=False, replay=None, extra_args=(), timeout=
     cmd += list(extra_args)
     env = dict(GOENV)
     env.setdefault("GOMEMLIMIT", "8GiB")
-    env["VERIF_LDRIVER"] = os.path.join(LEAN, ".lake", "build", "bin", driver)
+    env["VERIF_LDRIVER"] = os.path.join(LEAN, ".lake", "build", "bin", driver)  # only used to locate the lean tree
     t0 = time.time()
     with open(cases_path, "w") as cf:
         try:
@@ -304,7 +329,7 @@ def run_workload(name, seed, n, wide=False, replay=None, extra_args=(), timeout=
         except subprocess.TimeoutExpired as e:
             rc, se = 124, "timeout: " + str(e)
     with open(cases_path) as cf, open(verd_path, "w") as vf:
-        p = subprocess.run([os.path.join(LEAN, ".lake", "build", "bin", driver)],
+        p = subprocess.run([driver_path(driver)],
                            stdin=cf, stdout=vf, stderr=subprocess.PIPE, text=True, timeout=timeout)
         drc, dse = p.returncode, p.stderr
     st = {"workload": name, "seed": seed, "requested": n, "harness_rc": rc,
